@@ -1,8 +1,8 @@
 package rules
 
 import (
-	"go/types"
 	"fmt"
+	"go/types"
 	"strings"
 
 	"golang.org/x/tools/go/ssa"
@@ -15,20 +15,20 @@ const runnerPkg = ssv + "protocol/v2/ssv/runner"
 
 // consensus runners and the beacon domain each signs after a decision
 var postConsensusSites = map[string]string{
-	"AttesterRunner":               "DomainAttester",
-	"ProposerRunner":               "DomainProposer",
-	"AggregatorRunner":             "DomainAggregateAndProof",
-	"SyncCommitteeRunner":          "DomainSyncCommittee",
+	"AttesterRunner":                "DomainAttester",
+	"ProposerRunner":                "DomainProposer",
+	"AggregatorRunner":              "DomainAggregateAndProof",
+	"SyncCommitteeRunner":           "DomainSyncCommittee",
 	"SyncCommitteeAggregatorRunner": "DomainContributionAndProof",
 }
 
 // runners that sign a pre-consensus object when the duty starts
 var preConsensusSites = map[string]string{
-	"ProposerRunner":               "DomainRandao",
-	"AggregatorRunner":             "DomainSelectionProof",
+	"ProposerRunner":                "DomainRandao",
+	"AggregatorRunner":              "DomainSelectionProof",
 	"SyncCommitteeAggregatorRunner": "DomainSyncCommitteeSelectionProof",
-	"ValidatorRegistrationRunner":  "DomainApplicationBuilder",
-	"VoluntaryExitRunner":          "DomainVoluntaryExit",
+	"ValidatorRegistrationRunner":   "DomainApplicationBuilder",
+	"VoluntaryExitRunner":           "DomainVoluntaryExit",
 }
 
 var slotBoundProofs = map[string]bool{"ProposerRunner": true, "AggregatorRunner": true, "SyncCommitteeAggregatorRunner": true}
